@@ -78,6 +78,22 @@ def encSubstP (text : String) (kwargs : List (String × Val Float)) : String :=
     (if covered then "covered " else "outside ") ++
       " ".intercalate ((sc'.toks ⟨0, 0, 0, 0, [], dev⟩ lay 1).map encTok)
 
+/-- SUBSTR: the script with register values written into its arguments (`substRScript`), as tokens -/
+def encSubstR (text : String) (kwargs : List (String × Val Float)) : String :=
+  match parseText text with
+  | none => "(err syntax)"
+  | some sc =>
+    let ρ : String → Option (Num Float) := fun p =>
+      match dictGet kwargs p with
+      | some (.atom (.num n)) => some n
+      | _ => none
+    let sc' := substRScript ρ sc
+    let dev := match sc'.header.target with
+      | some (n, _) => !isNameText n
+      | none => false
+    let lay := List.replicate sc'.items.length ((1 : Nat), ([] : List Nat))
+    " ".intercalate ((sc'.toks ⟨0, 0, 0, 0, [], dev⟩ lay 1).map encTok)
+
 /-- a history of `loads` calls in one process: tables threaded from call to call -/
 def runHistory (fs : FS) : List String → Tables Float → List String → List String
   | [], _, acc => acc.reverse
@@ -150,6 +166,12 @@ def handle (line : String) : String :=
         | some k => match decKw k with
                     | none => "bad-kw"
                     | some kwargs => encSubstP text kwargs
+      | "SUBSTR", [text, kw] =>
+        match sxParse kw with
+        | none => "bad-sx"
+        | some k => match decKw k with
+                    | none => "bad-kw"
+                    | some kwargs => encSubstR text kwargs
       | "GRAPH", [prog] =>
         withProgram prog fun p =>
           let (g, p') := toDiGraph p
